@@ -2,5 +2,5 @@ from . import interpprops
 def check(res, thorough):
     return interpprops.check(res, thorough, "C07", "AscaVerif.Props.C07", "c07-spec", "c07.cases", "c07.nontrivial",
         """(1) X1=1..Xk=k > 1..k, k<=3, element kinds matrix/group/[]/%/structure, random environments; (2) [αF] > [αF] for the 26 features, 5 nodes and 4 suprasegmentals on bare, C and V elements, and the % stress rules; (3) A > B / X=1 _ 1 against 'fires exactly between identical bundles' on words without long segments; words with long/overlong segments, tones, both stresses; non-trivial = the rule's input matches somewhere""",
-        ["secondary stress copied through an alpha is the known finding D7", "structure variables were repaired by a fix: commit (known_findings.json, fixed)"])
+        ["secondary stress copied through an alpha is the known finding D7", "structure variables were repaired by a fix: commit (known_findings.json, fixed)"], extra_props=["AscaVerif.Props.C07Scan"])
 replay = interpprops.replay
